@@ -58,6 +58,8 @@ fn main() {
         "C02" => props::c02::run(&args, &mut acc),
         "C03" => props::c03::run(&args, &mut acc),
         "C04" => props::c04::run(&args, &mut acc),
+        "C13" => props::c13::run(&args, &mut acc),
+        "C14" => props::c14::run(&args, &mut acc),
         "C16" => props::c16::run(&args, &mut acc),
         "C20" => props::c20::run(&args, &mut acc),
         p => { eprintln!("unknown property {p}"); std::process::exit(2) }
